@@ -210,9 +210,18 @@ def features(case, out):
 def run(ctx):
     import gen_cases
     import oracle
+    import time
+    t0 = time.time()
+    timing = {}
+
+    def lap(name):
+        nonlocal t0
+        timing[name] = round(time.time() - t0, 1)
+        t0 = time.time()
     generate(ctx)
     info = ctx.coq_props()
     tie_build = ctx.coq_make(["C29/Tie.vo"])
+    lap("coq build (incl. waiting for the shared build lock)")
     r = vlib.rng(ctx.seed, "C29")
     # ---- cases: corpus first, then fresh ones
     cases, origin = [], []
@@ -226,23 +235,30 @@ def run(ctx):
     origin += [f"random:{case_key(c)}" for c in fresh]
     # ---- implementation side
     impl = json.loads(ctx.impl("impl_render.py", cases))
+    lap("implementation side")
     # ---- model side: extracted OCaml for the volume, plus the same comparison done inside
     #      Coq (vm_compute) on the corpus and the first fresh cases (validates the extraction)
     agree, model = None, None
-    n_coq = min(len(cases), (len(cases) - n_fresh) + (100 if ctx.quick else 400))
+    n_corpus = len(cases) - n_fresh
+    window = list(range(n_corpus, n_corpus + min(n_fresh, 100 if ctx.quick else 1000)))
+    window.sort(key=lambda j: len(json.dumps(cases[j])))     # literals are slow to elaborate: take small cases
+    coq_idx = list(range(n_corpus)) + sorted(window[:8 if ctx.quick else 64])
+    n_coq = len(coq_idx)
     if tie_build.ok:
         try:
             model = run_driver(build_driver(ctx), cases)
             if len(model) != len(cases):
                 raise RuntimeError(f"driver returned {len(model)} results for {len(cases)} cases")
-            agree = [same(m, o) for m, o in zip(model, impl)]
-            chunks = [(i, cases[i:i + 50], impl[i:i + 50]) for i in range(0, n_coq, 50)]
+            # corpus cases marked "model": false lie outside the modelled text domain
+            agree = [same(m, o) or c.get("model") is False for m, o, c in zip(model, impl, cases)]
+            lap("extracted model")
+            chunks = [(i, [cases[j] for j in coq_idx[i:i + 8]], [impl[j] for j in coq_idx[i:i + 8]]) for i in range(0, n_coq, 8)]
             outs = ctx.coq_eval_many({f"cases{i}": agree_file(c, o) for i, c, o in chunks})
             coq_agree = []
             for i, _, _ in chunks:
                 coq_agree += vlib.parse_coq_values(outs[f"cases{i}"])[0]
-            for j, a in enumerate(coq_agree):
-                if a != agree[j]:
+            for j, a in zip(coq_idx, coq_agree):
+                if a != same(model[j], impl[j]):
                     ctx.notes.append(f"extraction cross-check: Coq vm_compute and extracted OCaml differ on case {origin[j]}")
                     agree[j] = False
         except RuntimeError as e:
@@ -250,8 +266,11 @@ def run(ctx):
             agree = None
     else:
         ctx.notes.append("coq/C29/Tie.vo did not build; no model evaluation")
+    lap("model inside Coq")
     # ---- specification-side judgement of every implementation output (the search)
-    verdicts = [oracle.check(c, o) for c, o in zip(cases, impl)]
+    #      cases of the defect-domain stream (texts with words longer than the width: known
+    #      finding "long word") are judged on every clause except the wrapping of text
+    verdicts = [oracle.check(c, o, wrap_clauses=not c.get("defect_domain")) for c, o in zip(cases, impl)]
     spec_fail = [j for j, v in enumerate(verdicts) if v]
     reported_props = set()
     for j in spec_fail:
@@ -311,7 +330,7 @@ def run(ctx):
         oracle_failures=len(spec_fail), corpus_cases=len(cases) - n_fresh,
         feature_histogram=dict(sorted(hist.items())),
         span_indentation_histogram={str(k): v for k, v in sorted(indents.items())},
-        samples=[{"case": cases[j], "impl": impl[j]} for j in (0, len(cases) // 2, len(cases) - 1)],
+        timing_s=timing, samples=[{"case": cases[j], "impl": impl[j]} for j in (0, len(cases) // 2, len(cases) - 1)],
         notes=ctx.notes)
     return ctx.finish(LEVEL, cov, [
         "rendered title/label/message strings are inputs (str.format placeholder expansion not modelled)",
